@@ -1,0 +1,16 @@
+//go:build verif
+
+// Contracts for package pipeline, read by /verif/gvc (comment-only file; it declares
+// nothing and is compiled only with -tags verif).
+package pipeline
+
+// ---- C06: converting any traveler to a result row never panics ----------------------
+// The traveler may carry no current element (null-producing steps), selections whose
+// element is nil (undefined marks), unloaded elements that have meanwhile disappeared
+// from the graph (the lookup returns nil) and no aggregation.
+//@ func Convert
+//@   property C06
+//@   option prelude=trav
+//@   option load=gdbi,gripql
+//@   nopanic
+//@   requires collab: graph != nil && t != nil
